@@ -41,6 +41,7 @@ structure D where
   cbs : List Ev := []              -- observed callbacks of the current release (chronological)
   logLen : Nat := 0                -- model log length at the start of the current release
   iterSeen : Option (List Val) := none
+  bufferItems : Nat := 0           -- Config.BufferItems: the ring stripe flushes exactly this many keys
   cover : List (String × Nat) := []
 
 def costFnImpl (v : Val) : Int := (v % 5 : Nat) + 1
@@ -105,7 +106,9 @@ def clientChoice (d : D) (t : Tid) : Choice × D :=
   match d.s.cl t with
   | .getStart .. =>
     match takeObs d 66 with
-    | some ((kept, n), d') => (.flush (kept == 1) n, d')
+    | some ((kept, n), d') =>
+      -- ringStripe.Push hands the consumer a full stripe: exactly BufferItems keys
+      if d.bufferItems != 0 && n != d.bufferItems then (.flush (kept == 1) 0, d') else (.flush (kept == 1) n, d')
     | none => (.none, d)
   | .clrShard _ k => (.order (shardOrderFrom d.s.store k (evictedKeys d.cbs)), d)
   | .iterShard k _ seen =>
@@ -346,7 +349,8 @@ def stepLine (d : D) (_n : Nat) (ws : List String) : Except String (D × Nat) :=
       let cfg : Cfg := { bufCap := cap, ignoreInternal := b "ignoreinternal", metricsOn := b "metrics", maxCost := mc,
                          costFn := if b "costfn" then some costFnImpl else none,
                          shouldUpdate := if b "su" then some suImpl else none }
-      .ok ({ d with cfg := cfg, s := init cfg now, started := true, logLen := 0 }, 0)
+      .ok ({ d with cfg := cfg, s := init cfg now, started := true, logLen := 0,
+                    bufferItems := ((kv rest "bufferitems").bind (·.toNat?)).getD 0 }, 0)
     | _, _, _ => .error "bad cfg"
   | "spawn" :: g :: call =>
     match clientId g, parseCall call with
